@@ -1254,6 +1254,48 @@ class Explorer:
             if ty in ("u8", "u16", "u32", "u64", "usize", "i32", "i64"):
                 return ret(C(0, ty))
             return None
+        # ---- checked slice access: Some(..) exactly when the index / range is within the length
+        if p == "std::slice::<impl [T]>::get" and len(args) == 2:
+            base, ix = args[0], args[1]
+            ln = SYM(self.cap(("len", base)))
+            INDEX = "std::slice::index::<impl std::ops::Index<I> for [T]>::index"
+            conds = None        # list of (bool value, required truth)
+            if ix[0] in ("c", "sym"):
+                conds = [(self.binop(st, "Lt", ix, ln), True)]
+            elif ix[0] == "agg" and ix[2] == "RangeTo":
+                conds = [(self.binop(st, "Lt", ln, ix[3][0]), False)]
+            elif ix[0] == "agg" and ix[2] == "RangeFrom":
+                conds = [(self.binop(st, "Lt", ln, ix[3][0]), False)]
+            elif ix[0] == "agg" and ix[2] == "Range":
+                conds = [(self.binop(st, "Lt", ix[3][1], ix[3][0]), False), (self.binop(st, "Lt", ln, ix[3][1]), False)]
+            if conds is None:
+                return None
+            OPT = "std::option::Option"
+            some = AGG(OPT, "Some", (SYM(self.cap(("call", INDEX, (base, ix)))),))
+            alts = []
+
+            def add_alt(assumptions, val):
+                s2 = st.clone()
+                for bv, truth in assumptions:
+                    r = self.eval_bool(s2, bv)
+                    if isinstance(r, bool):
+                        if r != truth:
+                            return
+                    elif not self.assume_bool(s2, r, truth):
+                        return
+                k2 = self.clone_stack(stack)
+                self.write_place(s2, k2[-1], dest, val, site)
+                if target is None:
+                    return
+                k2[-1].bb = target
+                alts.append((s2, k2))
+            add_alt(conds, some)
+            for i in range(len(conds)):
+                add_alt(conds[:i] + [(conds[i][0], not conds[i][1])], AGG(OPT, "None"))
+            if not alts:
+                self.finish_path(st, None, "diverge")
+                return "stop"
+            return ("fork", alts)
         # ---- mem::take / mem::replace / Option::take / Option::replace: read the place, write the new value
         if p in ("std::mem::take", "std::mem::replace", "std::option::Option::<T>::take", "std::option::Option::<T>::replace"):
             a0 = args[0]
@@ -1613,6 +1655,8 @@ def default_inline(ex, callee, info):
         return True
     if callee.get("name") == "try_from" and callee.get("impl_self", "").startswith("mqtt::packet::enum_store_packet::GenericStorePacket"):
         return True      # Publish/Pubrel -> stored packet: decided by the same qos() atom the handler tested
+    if callee.get("kind") == "Fn" and not callee.get("pub") and callee["path"].startswith("mqtt::packet::") and len(callee["blocks"]) <= 14:
+        return True      # small private helper of a packet module (e.g. a predicate factored out of build()/parse())
     return False
 
 
